@@ -5,7 +5,8 @@
 From Coq Require Import String ZArith List Bool Permutation.
 From V Require Import base.Cal rstr.RstrPrim rstr.RstrModel rstr.RstrSpec rstr.RstrThm
   rstr.RstrThmWd rstr.RstrThmParts rstr.RstrThmKw rstr.RstrThmSpell rstr.RstrThmTop rstr.RstrThmStr
-  rstr.RstrThmCtor rstr.RstrThmFinal rstr.RstrThmErr rstr.RstrThmSet rstr.RstrThmFold rstr.RstrThmWf rstr.RstrThmFold2 rstr.RstrThmIg rstr.RstrThmTzid rstr.RstrThmCompat rstr.RstrThmTzid2.
+  rstr.RstrThmCtor rstr.RstrThmFinal rstr.RstrThmErr rstr.RstrThmSet rstr.RstrThmFold rstr.RstrThmWf rstr.RstrThmFold2 rstr.RstrThmIg rstr.RstrThmTzid rstr.RstrThmCompat rstr.RstrThmTzid2
+  rstr.RstrThmSetIg rstr.RstrThmTzid3.
 Import ListNotations.
 Open Scope Z_scope.
 
@@ -187,10 +188,48 @@ Theorem C13_tzid_names : forall pre name rest, nolower pre -> noTZ (pre ++ [84])
 Proof. exact tzid_findall_one. Qed.
 Print Assumptions C13_tzid_names.
 
+(* general form: optional VALUE=DATE-TIME parameter BEFORE the TZID parameter, the keyword TZID in
+   any letter case (395419a) *)
+Theorem C13_spelling_tzid_general : forall ev o c d k name tag vp k0 k1 k2 k3, wf_kw k = true ->
+  valid_dt d = true -> dus d = 0 -> dtz d = 0 ->
+  name <> [] -> forallb namec name = true -> tz_get (o_tzids o) name = tag -> tag <> 0 ->
+  kwd_ok k0 k1 k2 k3 ->
+  o_forceset o = false -> o_compatible o = false -> o_ignoretz o = false -> o_unfold o = false ->
+  parse_rfc ev o (s_DTSTART ++ vtext vp ++ 59 :: [k0; k1; k2; k3; 61] ++ name ++ 58 :: dt_spell (c_dshort c) d
+                  ++ 10 :: (if c_prefix c then s_RRULEc else []) ++ spell_value c k)
+  = single ev (o_cache o) (Some (with_tz d tag)) k.
+Proof. exact rrulestr_tzid_general. Qed.
+Print Assumptions C13_spelling_tzid_general.
+
+Theorem C13_tzid_names_anycase : forall pre k0 k1 k2 k3 name rest, nolower pre -> noTZ (pre ++ [84]) = true ->
+  kwd_ok k0 k1 k2 k3 -> name <> [] -> has_char 58 name = false -> nolower rest -> noTZ rest = true ->
+  tzid_findall (pre ++ [k0; k1; k2; k3; 61] ++ name ++ 58 :: rest) = [name].
+Proof. exact tzid_findall_kw. Qed.
+Print Assumptions C13_tzid_names_anycase.
+
+(* TZID on an EXDATE line (optionally after VALUE=DATE-TIME): every value in that zone *)
+Theorem C13_exdate_tzid : forall o names name tag vp short ds a,
+  forallb namec name = true -> tzid_lookup names (upper name) = Some name ->
+  tz_get (o_tzids o) name = tag -> tag <> 0 -> o_ignoretz o = false ->
+  ds <> [] -> forallb naive_date ds = true ->
+  do_line o names (s_EXDATE ++ vtext vp ++ 59 :: s_TZIDeq ++ upper name ++ 58 :: dates_text short ds) a =
+  Ok (mkacc (a_rr a) (a_rd a) (a_xr a) (a_xd a ++ map (fun d => with_tz d tag) ds) (a_start a)).
+Proof. exact do_line_exdate_tzid. Qed.
+Print Assumptions C13_exdate_tzid.
+
+(* finding F-C13-f: VALUE before TZID keeps the zone, TZID before VALUE loses it *)
+Theorem C13_tzid_followed_by_parameter_refuted :
+  let o := mkopts None false false false false false [(zs "Europe/Berlin", 3)] in
+  let ev := mkenv 0 (mkdt 2000 1 1 0 0 0 0 0) in
+  (exists r, parse_rfc ev o (zs "DTSTART;VALUE=DATE-TIME;TZID=Europe/Berlin:19970902T090000
+RRULE:FREQ=DAILY;COUNT=2") = RRule false r /\ dtz (r_dtstart r) = 3) /\
+  (exists r, parse_rfc ev o (zs "DTSTART;TZID=Europe/Berlin;VALUE=DATE-TIME:19970902T090000
+RRULE:FREQ=DAILY;COUNT=2") = RRule false r /\ dtz (r_dtstart r) = 0).
+Proof. exact tzid_followed_by_parameter_refuted. Qed.
+Print Assumptions C13_tzid_followed_by_parameter_refuted.
+
 (* TZID parameter, at the level of _parse_date_value: the zone found through tzids is applied to a
-   naive value, and a value with Z is rejected with ValueError.  (Not covered by a theorem: a TZID
-   parameter together with a lower-cased keyword or a VALUE parameter, and TZID on EXDATE lines --
-   differential only.) *)
+   naive value, and a value with Z is rejected with ValueError.  *)
 Theorem C13_tzid_param : forall o names name tag short d,
   has_char 61 (upper name) = false ->
   tzid_lookup names (upper name) = Some name -> tz_get (o_tzids o) name = tag -> tag <> 0 ->
@@ -209,6 +248,45 @@ Theorem C13_tzid_param_twice_valueerror : forall o names name tag short d,
   parse_date_value o names (dt_spell short d) [s_TZIDeq ++ upper name] = Err EValue.
 Proof. exact tzid_param_twice_valueerror. Qed.
 Print Assumptions C13_tzid_param_twice_valueerror.
+
+(* ignoretz=True at whole-text level (set-assembly model): the set has the same members by role,
+   every RDATE / EXDATE / DTSTART value is the naive reading, every rule line is parsed with ignoretz
+   (and then C13_ignoretz_kw / C13_member_rule_ignoretz say what that gives) *)
+Theorem C13_set_assembly_ignoretz : forall ev o short its rr xr,
+  its <> [] -> forallb wf_item its = true ->
+  o_ignoretz o = true -> o_compatible o = false -> o_unfold o = false ->
+  match o_dtstart o with Some d => dtz d = 0 | None => True end ->
+  let start := option_map untz (start_of its (o_dtstart o)) in
+  (o_forceset o || (1 <? Z.of_nat (List.length (rules_of its))) || negb (isnil (rdates_of its))
+   || negb (isnil (exrules_of its)) || negb (isnil (exdates_of its))) = true ->
+  parse_rules ev true start (rules_of its) = Ok rr ->
+  parse_rules ev true start (exrules_of its) = Ok xr ->
+  parse_rfc ev o (join [10] (map (render_item short) its)) =
+  RSet (o_cache o) rr (map untz (concat (rdates_of its))) xr (map untz (exdates_of its)).
+Proof. exact set_assembly_text_ignoretz. Qed.
+Print Assumptions C13_set_assembly_ignoretz.
+
+Theorem C13_set_members_ignoretz : forall ev o names short its rr xr,
+  forallb wf_item its = true -> o_ignoretz o = true ->
+  match o_dtstart o with Some d => dtz d = 0 | None => True end ->
+  let fs := o_forceset o || o_compatible o in
+  let start := option_map untz (start_of its (o_dtstart o)) in
+  (fs || (1 <? Z.of_nat (List.length (rules_of its))) || negb (isnil (rdates_of its))
+   || negb (isnil (exrules_of its)) || negb (isnil (exdates_of its))) = true ->
+  parse_rules ev true start (rules_of its) = Ok rr ->
+  parse_rules ev true start (exrules_of its) = Ok xr ->
+  general ev o fs names (map (render_item short) its) =
+  RSet (o_cache o) rr
+       (map untz (concat (rdates_of its)) ++
+        (if o_compatible o then match start with Some d => [d] | None => [] end else []))
+       xr (map untz (exdates_of its)).
+Proof. exact set_assembly_ignoretz. Qed.
+Print Assumptions C13_set_members_ignoretz.
+
+Theorem C13_member_rule_ignoretz : forall ev line st k, parse_rrule_kw false line = Ok k ->
+  parse_rule ev true line st = (if isNone (k_freq k) then Err EValue else ctor ev st (untz_kw k)).
+Proof. exact parse_rule_ignoretz. Qed.
+Print Assumptions C13_member_rule_ignoretz.
 
 (* ignoretz=True: the same rule parts, UNTIL without its zone *)
 Theorem C13_ignoretz_kw : forall line k,
